@@ -157,9 +157,9 @@ def clear (t : Tbl) : Except Err Tbl :=
   else if countOccL t.slots.toList < t.len then .error .panic
   else .ok { t with slots := (clearLoop t.len t.slots.toList).toArray, len := 0 }
 
-/-- `RawTable::reset_no_drop`: `len = 0`, the slot array is replaced by an empty one; `free` is
-left as it is. -/
-def resetNoDrop (t : Tbl) : Tbl := { t with slots := #[], len := 0 }
+/-- `RawTable::reset_no_drop`: `len = 0`, `free = 0` (since commit f20789c), and the slot array is
+replaced by an empty one. -/
+def resetNoDrop (_t : Tbl) : Tbl := { slots := #[], len := 0, free := 0 }
 
 inductive FindRes where
   | found (i : Nat)
